@@ -84,3 +84,17 @@ pub fn hash_cheap(_on: bool) {}
 pub fn fmt_format(_args: std::fmt::Arguments<'_>) -> String {
     String::new()
 }
+
+/// Stand-in for `<BucketMeta as From<&[u8]>>::from` in harnesses that decode nested-bucket headers from page bytes
+/// on the way (opt-in per harness: `#[kani::stub(<crate::bucket::BucketMeta as std::convert::From<&[u8]>>::from,
+/// crate::jv_top_stubs::bucket_meta_from_le)]`). The real function copies the 16 bytes to an aligned spot of a stack
+/// buffer, at an offset computed from the buffer's ADDRESS; symbolic execution cannot fold that offset, the decoded
+/// root page id stays symbolic and every page access below it forks. This is the function's contract -- root page
+/// then counter, little endian -- which `bucket_meta_codec` proves of the REAL function for every 16-byte input at
+/// every alignment of the source slice. (The type parameter mirrors the trait's, Kani requires the counts to match.)
+pub fn bucket_meta_from_le<T>(value: &[u8]) -> crate::bucket::BucketMeta {
+    assert!(value.len() == 16);
+    let a = [value[0], value[1], value[2], value[3], value[4], value[5], value[6], value[7]];
+    let b = [value[8], value[9], value[10], value[11], value[12], value[13], value[14], value[15]];
+    crate::bucket::BucketMeta { root_page: u64::from_le_bytes(a), next_int: u64::from_le_bytes(b) }
+}
